@@ -61,7 +61,6 @@ namespace occa {
       blockStatement::print(pout);
 
       if (isDoWhile) {
-        pout.popInlined();
         pout << " while (";
         pout.pushInlined(true);
         condition->print(pout);
